@@ -531,8 +531,10 @@ def r10(ctx):
             for e in evs:
                 if e.idx > after and e.name in ('SIG.wait', 'SIG.wait_timeout', 'SIG.is_terminated', 'CANCEL_RECV', 'SIG.assume_init'):
                     a = e.data['args'][0] if e.data['args'] else None
-                    if a is None or a[0] not in ('ref', 'rawptr') or a[1] != ('local', sl):
+                    if a is None or a[0] not in ('ref', 'rawptr') or a[1] != r[1]:
                         ctx.violate(b.key, p, '%s applied to a signal other than the registered one' % e.name, at=e.at)
+            if len(r[1]) > 2:
+                continue  # the signal lives in a spliced callee (a wrapper delegating to another entry point): checked there
             for bi, blk in enumerate(b.blocks):
                 if blk['cleanup']:
                     continue
